@@ -1,3 +1,332 @@
+// simrewrite generates the source overlay that puts falco's nondeterminism
+// behind seams the simulator owns — without editing /repo. It reads the
+// CURRENT working tree, writes rewritten copies of a handful of files plus
+// overlay.json into -out, and prints a JSON log of what it did.
+//
+// Rewrites (see DESIGN.md §3.6):
+//
+//	import "sync"      → sync "falcosim/sim/simsync"     interpreter/…, linter/…, snippet/…
+//	import "os/exec"   → exec "falcosim/sim/simexec"     linter/…
+//	go f(x)            → simhook.Go(func() { f(x) })     linter/…, snippet/…
+//	eg.Go(f)           → eg.Go(simhook.WrapErr(f))       snippet/… (errgroup)
+//	first statement simhook.Yield("<func>")              fixed list of functions
+//	range m (m a map)  → range simmap.Sorted(m)          linter/…, linter/context, snippet/…  (typed)
 package main
 
-func main() {}
+import (
+	"bytes"
+	"encoding/json"
+	"flag"
+	"fmt"
+	"go/ast"
+	"go/format"
+	"go/parser"
+	"go/token"
+	"go/types"
+	"os"
+	"path/filepath"
+	"sort"
+	"strconv"
+	"strings"
+
+	"golang.org/x/tools/go/packages"
+)
+
+type logT struct {
+	Files       int            `json:"files_rewritten"`
+	ImportSwaps map[string]int `json:"import_swaps"`
+	Yields      []string       `json:"yields_inserted"`
+	GoStmts     int            `json:"go_statements_wrapped"`
+	ErrgroupGo  int            `json:"errgroup_go_wrapped"`
+	MapRanges   []string       `json:"map_ranges_wrapped"`
+	MapsCalls   []string       `json:"maps_calls_wrapped"`
+	Skipped     []string       `json:"skipped,omitempty"`
+}
+
+var doneGo = map[*ast.GoStmt]bool{}
+
+var yieldFuncs = map[string]map[string]bool{
+	"interpreter": {"Interpreter.ProcessSubroutine": true, "Interpreter.ProcessFunctionSubroutine": true, "Interpreter.ProcessInit": true, "Interpreter.sendProcessResponse": true, "Interpreter.restart": true, "Interpreter.ProcessRecv": true},
+	"linter":      {"Linter.Error": true},
+}
+
+func main() {
+	repo := flag.String("repo", "/repo", "falco working tree")
+	out := flag.String("out", "", "output directory")
+	modfile := flag.String("modfile", "", "modfile for type loading")
+	noTyped := flag.Bool("notyped", false, "skip the typed map-range rewrite")
+	flag.Parse()
+	if *out == "" {
+		fmt.Fprintln(os.Stderr, "simrewrite: -out required")
+		os.Exit(2)
+	}
+	ovDir := filepath.Join(*out, "ov")
+	os.MkdirAll(ovDir, 0o755)
+	lg := &logT{ImportSwaps: map[string]int{}}
+	replace := map[string]string{}
+
+	// typed information for map ranges
+	mapSites := map[string]map[token.Pos]bool{} // filename → set of RangeStmt.X positions that are maps (by offset)
+	mapsCallSites := map[string]map[int]string{}
+	if !*noTyped {
+		if err := loadTyped(*repo, *modfile, mapSites, mapsCallSites); err != nil {
+			fmt.Fprintln(os.Stderr, "simrewrite: type loading failed:", err)
+			os.Exit(2)
+		}
+	}
+
+	roots := []string{"interpreter", "linter", "snippet"}
+	for _, root := range roots {
+		filepath.Walk(filepath.Join(*repo, root), func(p string, info os.FileInfo, err error) error {
+			if err != nil || info.IsDir() || !strings.HasSuffix(p, ".go") || strings.HasSuffix(p, "_test.go") {
+				return nil
+			}
+			rel, _ := filepath.Rel(*repo, p)
+			src, err := os.ReadFile(p)
+			if err != nil {
+				return nil
+			}
+			fset := token.NewFileSet()
+			f, err := parser.ParseFile(fset, p, src, parser.ParseComments)
+			if err != nil {
+				lg.Skipped = append(lg.Skipped, rel+": "+err.Error())
+				return nil
+			}
+			changed := false
+			needHook, needMap := false, false
+			top := strings.SplitN(rel, string(filepath.Separator), 2)[0]
+
+			// import swaps
+			for _, im := range f.Imports {
+				path, _ := strconv.Unquote(im.Path.Value)
+				switch {
+				case path == "sync":
+					im.Path.Value = strconv.Quote("falcosim/sim/simsync")
+					if im.Name == nil {
+						im.Name = ast.NewIdent("sync")
+					}
+					lg.ImportSwaps["sync"]++
+					changed = true
+				case path == "os/exec" && top == "linter":
+					im.Path.Value = strconv.Quote("falcosim/sim/simexec")
+					if im.Name == nil {
+						im.Name = ast.NewIdent("exec")
+					}
+					lg.ImportSwaps["os/exec"]++
+					changed = true
+				}
+			}
+
+			// yields
+			pkgYields := yieldFuncs[f.Name.Name]
+			for _, d := range f.Decls {
+				fd, ok := d.(*ast.FuncDecl)
+				if !ok || fd.Body == nil || fd.Recv == nil || len(fd.Recv.List) != 1 {
+					continue
+				}
+				recv := fd.Recv.List[0].Type
+				if st, ok := recv.(*ast.StarExpr); ok {
+					recv = st.X
+				}
+				rid, ok := recv.(*ast.Ident)
+				if !ok || !pkgYields[rid.Name+"."+fd.Name.Name] {
+					continue
+				}
+				call := &ast.ExprStmt{X: &ast.CallExpr{
+					Fun:  &ast.SelectorExpr{X: ast.NewIdent("simhook"), Sel: ast.NewIdent("Yield")},
+					Args: []ast.Expr{&ast.BasicLit{Kind: token.STRING, Value: strconv.Quote(f.Name.Name + "." + fd.Name.Name)}},
+				}}
+				fd.Body.List = append([]ast.Stmt{call}, fd.Body.List...)
+				lg.Yields = append(lg.Yields, rel+":"+fd.Name.Name)
+				needHook, changed = true, true
+			}
+
+			// go statements and errgroup Go, map ranges
+			if top == "linter" || top == "snippet" {
+				rewriteStmtLists(f, func(list []ast.Stmt) []ast.Stmt {
+					for i, st := range list {
+						switch t := st.(type) {
+						case *ast.GoStmt:
+							// { simW := simhook.Register(); go func(params) { simW(); body }(args) }
+							// Arguments are still evaluated at the go statement; the new
+							// goroutine is registered in program order and parked at birth.
+							if doneGo[t] {
+								continue
+							}
+							doneGo[t] = true
+							fl, ok := t.Call.Fun.(*ast.FuncLit)
+							if !ok {
+								lg.Skipped = append(lg.Skipped, fmt.Sprintf("%s: go statement without function literal left as is", rel))
+								continue
+							}
+							wname := ast.NewIdent("simW")
+							fl.Body.List = append([]ast.Stmt{&ast.ExprStmt{X: &ast.CallExpr{Fun: wname}}}, fl.Body.List...)
+							list[i] = &ast.BlockStmt{List: []ast.Stmt{
+								&ast.AssignStmt{Lhs: []ast.Expr{wname}, Tok: token.DEFINE, Rhs: []ast.Expr{&ast.CallExpr{
+									Fun: &ast.SelectorExpr{X: ast.NewIdent("simhook"), Sel: ast.NewIdent("Register")}}}},
+								t,
+							}}
+							lg.GoStmts++
+							needHook, changed = true, true
+						case *ast.ExprStmt:
+							if c, ok := t.X.(*ast.CallExpr); ok && len(c.Args) == 1 {
+								if sel, ok := c.Fun.(*ast.SelectorExpr); ok && sel.Sel.Name == "Go" {
+									if id, ok := sel.X.(*ast.Ident); ok && (id.Name == "eg" || id.Name == "g" || id.Name == "group") {
+										c.Args[0] = &ast.CallExpr{Fun: &ast.SelectorExpr{X: ast.NewIdent("simhook"), Sel: ast.NewIdent("WrapErr")}, Args: []ast.Expr{c.Args[0]}}
+										lg.ErrgroupGo++
+										needHook, changed = true, true
+									}
+								}
+							}
+						}
+					}
+					return list
+				})
+			}
+			if sites := mapSites[p]; len(sites) > 0 {
+				ast.Inspect(f, func(n ast.Node) bool {
+					rs, ok := n.(*ast.RangeStmt)
+					if !ok {
+						return true
+					}
+					off := fset.Position(rs.X.Pos()).Offset
+					if sites[token.Pos(off)] {
+						rs.X = &ast.CallExpr{Fun: &ast.SelectorExpr{X: ast.NewIdent("simmap"), Sel: ast.NewIdent("All")}, Args: []ast.Expr{rs.X}}
+						lg.MapRanges = append(lg.MapRanges, fmt.Sprintf("%s:%d", rel, fset.Position(rs.Pos()).Line))
+						needMap, changed = true, true
+					}
+					return true
+				})
+			}
+			if !changed {
+				return nil
+			}
+			if needHook {
+				addImport(f, "simhook", "falcosim/sim/simhook")
+			}
+			if needMap {
+				addImport(f, "simmap", "falcosim/sim/simmap")
+			}
+			var buf bytes.Buffer
+			if err := format.Node(&buf, fset, f); err != nil {
+				lg.Skipped = append(lg.Skipped, rel+": print: "+err.Error())
+				return nil
+			}
+			dst := filepath.Join(ovDir, strings.ReplaceAll(rel, string(filepath.Separator), "__"))
+			if err := os.WriteFile(dst, buf.Bytes(), 0o644); err != nil {
+				fmt.Fprintln(os.Stderr, err)
+				os.Exit(2)
+			}
+			replace[p] = dst
+			lg.Files++
+			return nil
+		})
+	}
+	sort.Strings(lg.Yields)
+	sort.Strings(lg.MapRanges)
+	ov, _ := json.MarshalIndent(map[string]any{"Replace": replace}, "", " ")
+	if err := os.WriteFile(filepath.Join(*out, "overlay.json"), ov, 0o644); err != nil {
+		fmt.Fprintln(os.Stderr, err)
+		os.Exit(2)
+	}
+	b, _ := json.Marshal(lg)
+	fmt.Println(string(b))
+}
+
+func addImport(f *ast.File, name, path string) {
+	for _, im := range f.Imports {
+		if p, _ := strconv.Unquote(im.Path.Value); p == path {
+			return
+		}
+	}
+	spec := &ast.ImportSpec{Name: ast.NewIdent(name), Path: &ast.BasicLit{Kind: token.STRING, Value: strconv.Quote(path)}}
+	for _, d := range f.Decls {
+		if gd, ok := d.(*ast.GenDecl); ok && gd.Tok == token.IMPORT {
+			gd.Specs = append(gd.Specs, spec)
+			if !gd.Lparen.IsValid() {
+				gd.Lparen = gd.Pos()
+				gd.Rparen = gd.End()
+			}
+			f.Imports = append(f.Imports, spec)
+			return
+		}
+	}
+	gd := &ast.GenDecl{Tok: token.IMPORT, Specs: []ast.Spec{spec}}
+	f.Decls = append([]ast.Decl{gd}, f.Decls...)
+	f.Imports = append(f.Imports, spec)
+}
+
+// rewriteStmtLists applies fn to every statement list in the file.
+func rewriteStmtLists(f *ast.File, fn func([]ast.Stmt) []ast.Stmt) {
+	ast.Inspect(f, func(n ast.Node) bool {
+		switch t := n.(type) {
+		case *ast.BlockStmt:
+			t.List = fn(t.List)
+		case *ast.CaseClause:
+			t.Body = fn(t.Body)
+		case *ast.CommClause:
+			t.Body = fn(t.Body)
+		}
+		return true
+	})
+}
+
+func loadTyped(repo, modfile string, mapSites map[string]map[token.Pos]bool, mapsCalls map[string]map[int]string) error {
+	// go/packages runs the `go` found on this process's PATH
+	os.Setenv("PATH", "/opt/veriftools/go1.26.8/bin:"+os.Getenv("PATH"))
+	env := append(os.Environ(), "GOFLAGS=-mod=mod", "GOPROXY=off", "GOSUMDB=off", "GOTOOLCHAIN=local",
+		"PATH=/opt/veriftools/go1.26.8/bin:"+os.Getenv("PATH"))
+	cfg := &packages.Config{
+		Mode: packages.NeedName | packages.NeedFiles | packages.NeedSyntax | packages.NeedTypes | packages.NeedTypesInfo | packages.NeedImports | packages.NeedDeps,
+		Dir:  repo,
+		Env:  env,
+	}
+	if modfile != "" {
+		// type-load with a copy of falco's own go.mod so that /repo/go.mod is never rewritten
+		dir := filepath.Dir(modfile)
+		for _, f := range []string{"go.mod", "go.sum"} {
+			b, err := os.ReadFile(filepath.Join(repo, f))
+			if err != nil {
+				return err
+			}
+			name := "falco-types." + strings.TrimPrefix(f, "go.")
+			if err := os.WriteFile(filepath.Join(dir, name), b, 0o644); err != nil {
+				return err
+			}
+		}
+		cfg.BuildFlags = []string{"-modfile=" + filepath.Join(dir, "falco-types.mod")}
+	}
+	pkgs, err := packages.Load(cfg, "./linter/...", "./snippet/...")
+	if err != nil {
+		return err
+	}
+	for _, p := range pkgs {
+		if len(p.Errors) > 0 {
+			return fmt.Errorf("package %s: %v", p.PkgPath, p.Errors[0])
+		}
+		for _, f := range p.Syntax {
+			name := p.Fset.Position(f.Pos()).Filename
+			if strings.HasSuffix(name, "_test.go") {
+				continue
+			}
+			ast.Inspect(f, func(n ast.Node) bool {
+				rs, ok := n.(*ast.RangeStmt)
+				if !ok {
+					return true
+				}
+				tv, ok := p.TypesInfo.Types[rs.X]
+				if !ok {
+					return true
+				}
+				if _, isMap := tv.Type.Underlying().(*types.Map); isMap {
+					if mapSites[name] == nil {
+						mapSites[name] = map[token.Pos]bool{}
+					}
+					mapSites[name][token.Pos(p.Fset.Position(rs.X.Pos()).Offset)] = true
+				}
+				return true
+			})
+		}
+	}
+	return nil
+}
